@@ -125,6 +125,35 @@ fn main() {
             dropin::run_enumerated::<flav::PlainUn, flav::SyncUn>(&mut rep, 3, me, shard, nshards);
             dropin::run(&mut rep, programs, len, &mut rng);
         }
+        "conc" => {
+            watchdog::start(prop.clone());
+            rep.max_violations_per_key = 1;
+            let pool = conc::Pool::new(3);
+            let mut shapes: Vec<(Vec<usize>, usize)> = vec![];
+            for sh in args.str("shapes", "1+1:1").split(',') {
+                let (a, b) = sh.split_once(':').unwrap_or((sh, "1"));
+                shapes.push((a.split('+').filter_map(|x| x.parse().ok()).collect(), b.parse().unwrap_or(1)));
+            }
+            let rc = conc_check::RunCfg {
+                shapes,
+                budget: args.num("budget", 20000),
+                shard,
+                nshards,
+                stride: args.num("stride", 1),
+                emit_known: args.flag("emit-known"),
+            };
+            let sel = args.str("flavours", "sync");
+            if sel == "sync" || sel == "sync_digraph" {
+                conc_check::run::<flav::SyncDi>(&pool, &rc, &mut rep);
+            }
+            if sel == "sync" || sel == "sync_ungraph" {
+                conc_check::run::<flav::SyncUn>(&pool, &rc, &mut rep);
+            }
+            use std::sync::atomic::Ordering as AO2;
+            rep.add("lock_events.before", pool.shared.ev_before.load(AO2::Relaxed));
+            rep.add("lock_events.acquired", pool.shared.ev_acquired.load(AO2::Relaxed));
+            rep.add("lock_events.released", pool.shared.ev_released.load(AO2::Relaxed));
+        }
         "replay" => {
             let path = args.str("file", "");
             let txt = std::fs::read_to_string(&path).expect("cannot read replay file");
@@ -156,6 +185,14 @@ fn main() {
                 }
                 "mutate" => {
                     for_flavours!(fl.as_str(), F, { reproduced |= mutate::replay::<F>(r) });
+                }
+                "conc" => {
+                    let pool = conc::Pool::new(3);
+                    if fl == "sync_digraph" {
+                        reproduced |= conc_check::replay::<flav::SyncDi>(&pool, r);
+                    } else {
+                        reproduced |= conc_check::replay::<flav::SyncUn>(&pool, r);
+                    }
                 }
                 k => println!("replay kind {} not supported by this binary", k),
             }
